@@ -33,7 +33,7 @@ def cse(expressions, cse_concat=True, cse_in_brackets=False, verbose=False):
     # Keep only expressions
     # 1. with at least one axis
     # 2. where axes are not also used outside the expression
-    common_exprs = set()
+    common_exprs = {}  # used as an ordered set: a set of strings would be iterated in hash order, which varies between processes
     for str_expr in str_to_common_expr.keys():
         used_axis_ids = set()
         used_axis_names = set()
@@ -55,7 +55,7 @@ def cse(expressions, cse_concat=True, cse_in_brackets=False, verbose=False):
                         axes_used_only_in_this_subexpression = axes_used_only_in_this_subexpression and id(global_axis) in used_axis_ids
 
         if axes_used_only_in_this_subexpression:
-            common_exprs.add(str_expr)
+            common_exprs[str_expr] = None
 
     common_exprs = [str_to_common_expr[k] for k in common_exprs]  # list of common_expr(=list of exprlist)
 
@@ -165,6 +165,9 @@ def cse(expressions, cse_concat=True, cse_in_brackets=False, verbose=False):
         print("CSE: Removed subexpressions of subexpressions")
         for v in common_exprs:
             print(f"    {[' '.join([str(y) for y in x]) for x in v]}")
+
+    # Overlapping candidates (e.g. "a b" and "a b c" inside "(a b c d)"): prefer the longest one, independent of the order they were found in
+    common_exprs = sorted(common_exprs, key=lambda common_expr: -len(common_expr[0]))
 
     # All subexpressions have been found. Now replace them with new Axis objects.
     def replace(expr):
